@@ -219,13 +219,13 @@ pair1poly_pipe_init(void *arg, nni_pipe *pipe, void *pair)
 	nni_aio_init(&p->aio_get, pair1poly_pipe_get_cb, p);
 	nni_aio_init(&p->aio_put, pair1poly_pipe_put_cb, p);
 
-	if ((rv = nni_msgq_init(&p->send_queue, 2)) != 0) {
-		pair1poly_pipe_fini(p);
-		return (rv);
-	}
-
 	p->pipe = pipe;
 	p->pair = pair;
+
+	if ((rv = nni_msgq_init(&p->send_queue, 2)) != 0) {
+		// The pipe is closed, stopped and finalized by our caller.
+		return (rv);
+	}
 
 	return (0);
 }
